@@ -340,6 +340,9 @@ func funcDeclName(fd *ast.FuncDecl) string {
 			t = s.X
 		}
 		if id, ok := t.(*ast.Ident); ok {
+			if id.Name == "ConnectionPool" {
+				return fd.Name.Name // the pool's methods are named without the type (shorter signatures)
+			}
 			return id.Name + "." + fd.Name.Name
 		}
 	}
